@@ -177,16 +177,44 @@ type c6v1 struct {
 	size   int
 	k, p   *filesystem.KeyStore
 	seenTS map[string]bool
+	dir    string // the directory string the keystore under test is opened with (a spelling of c6Root)
+	dirTag string
 }
 
-const c6Root = "/ks"
+// c6Root is the keystore directory in CLEAN form (used by the file oracles and the probe keystore).
+const c6Root = "/ks/v1"
+
+// c6DirSpellings: directory strings that all denote c6Root (the in-memory Storage resolves a path like
+// the operating system does: relative to "/", "." / ".." / repeated separators folded on every access).
+// The keystore under test is opened with each of them in turn: what it offers must not depend on how
+// its directory was written (cache keys built from the directory string must be normalised everywhere).
+var c6DirSpellings = []struct{ tag, dir string }{
+	{"clean", "/ks/v1"},
+	{"trailing-slash", "/ks/v1/"},
+	{"dot-prefix", "./ks/v1"},
+	{"double-separator", "/ks//v1"},
+	{"inner-dot", "/ks/./v1"},
+	{"dotdot", "/ks/v1/../v1"},
+	{"relative-trailing-dot", "ks/v1/."},
+}
+
+// c6DirSeq: every keystore v1 constructed by the C06 domains takes the next spelling (deterministic:
+// the number of spellings is coprime to the cycles of cache sizes and key kinds of the generators).
+var c6DirSeq int
 
 func newC6v1(r *vh.Rng, size int) (*c6v1, error) {
+	sp := c6DirSpellings[c6DirSeq%len(c6DirSpellings)]
+	c6DirSeq++
+	return newC6v1At(r, size, sp.tag, sp.dir)
+}
+
+func newC6v1At(r *vh.Rng, size int, dirTag, dir string) (*c6v1, error) {
 	enc, err := keystore.NewSCellKeyEncryptor(r.Bytes(32))
 	if err != nil {
 		return nil, err
 	}
-	d := &c6v1{fs: vh.NewMemFS(c6Root), enc: enc, size: size, seenTS: map[string]bool{}}
+	d := &c6v1{fs: vh.NewMemFS(c6Root), enc: enc, size: size, seenTS: map[string]bool{}, dir: dir, dirTag: dirTag}
+	// the probe keystore (identifies key versions) always uses the clean path and no cache
 	if d.p, err = filesystem.NewCustomFilesystemKeyStore().KeyDirectory(c6Root).Encryptor(enc).Storage(d.fs).CacheSize(keystore.WithoutCache).Build(); err != nil {
 		return nil, err
 	}
@@ -195,8 +223,19 @@ func newC6v1(r *vh.Rng, size int) (*c6v1, error) {
 func (d *c6v1) ks() c6keystore    { return d.k }
 func (d *c6v1) probe() c6keystore { return d.p }
 func (d *c6v1) reopen() (err error) {
-	d.k, err = filesystem.NewCustomFilesystemKeyStore().KeyDirectory(c6Root).Encryptor(d.enc).Storage(d.fs).CacheSize(d.size).Build()
+	d.k, err = filesystem.NewCustomFilesystemKeyStore().KeyDirectory(d.dir).Encryptor(d.enc).Storage(d.fs).CacheSize(d.size).Build()
 	return err
+}
+
+// c6DescDir: the part of a replay description that names the directory string.
+func c6DescDir(drv c6driver, rep *vh.Report) string {
+	d, ok := drv.(*c6v1)
+	if !ok {
+		return ""
+	}
+	rep.Count("v1-dir-spelling:" + d.dirTag)
+	rep.Count(fmt.Sprintf("v1-dir-spelling:%s cache:%d", d.dirTag, d.size))
+	return fmt.Sprintf(" KeyDirectory(%q)", d.dir)
 }
 func (d *c6v1) file(s c6slot) string {
 	switch s.kind {
@@ -691,6 +730,12 @@ func c6pickSlot(r *vh.Rng, slots []c6slot) c6slot { return slots[r.Intn(len(slot
 
 // c6newRun builds the keystore under test (v2, or v1 with the given cache size) and an empty history.
 func c6newRun(rep *vh.Report, r *vh.Rng, v2 bool, cacheSize int) *c6run {
+	return c6newRunAt(rep, r, v2, cacheSize, -1)
+}
+
+// c6newRunAt: the same with an explicit directory spelling for keystore v1 (index of c6DirSpellings;
+// -1 = the next one of the sequence).
+func c6newRunAt(rep *vh.Report, r *vh.Rng, v2 bool, cacheSize int, spelling int) *c6run {
 	h := &c6run{rep: rep, r: r, v2: v2, cached: !v2 && cacheSize != keystore.WithoutCache, spec: c6spec{},
 		ords: map[string]int{}, offered: map[c6slot]map[int]bool{}, gone: map[c6slot]map[int]bool{}, fresh: true, violated: map[string]bool{}}
 	var err error
@@ -705,12 +750,18 @@ func c6newRun(rep *vh.Report, r *vh.Rng, v2 bool, cacheSize int) *c6run {
 		case keystore.InfiniteCacheSize:
 			h.desc += " = unbounded cache"
 		}
-		h.drv, err = newC6v1(r, cacheSize)
+		if spelling < 0 {
+			h.drv, err = newC6v1(r, cacheSize)
+		} else {
+			sp := c6DirSpellings[spelling%len(c6DirSpellings)]
+			h.drv, err = newC6v1At(r, cacheSize, sp.tag, sp.dir)
+		}
 	}
 	if err != nil {
 		rep.Violate("harness-setup", "cannot construct keystore: "+err.Error(), "")
 		return nil
 	}
+	h.desc += c6DescDir(h.drv, rep)
 	return h
 }
 
@@ -789,8 +840,78 @@ func c6WarmDestroyFamily(rep *vh.Report, r *vh.Rng, thorough bool) {
 	}
 }
 
+// c6DirSpellingFamily: the keystore v1 directory string in every spelling x every cache mode (no cache,
+// one entry, unbounded; thorough: 2 and 8 entries as well) x key kinds: generate, rotate, read all keys
+// (warm: the list of current + rotated file names is cached under a key built from the directory string),
+// rotate again, read all keys WITHOUT a reset (the key that was current must still be offered and the
+// new one must appear), list, destroy a rotated key by index, read all keys (the destroyed file name must
+// have left the cached list), reset, read everything (= specification exactly).  What is offered must not
+// depend on how the directory was written: every site that builds such a cache key has to normalise alike.
+func c6DirSpellingFamily(rep *vh.Report, r *vh.Rng, thorough bool) {
+	sizes := []int{keystore.WithoutCache, 1, keystore.InfiniteCacheSize}
+	if thorough {
+		sizes = append(sizes, 2, 8)
+	}
+	kinds := []int{kStoragePair, kStorageSym, kHmac, kPoisonPair, kPoisonSym}
+	sc := 0
+	for sp := range c6DirSpellings {
+		for ci, size := range sizes {
+			for ki, kind := range kinds {
+				// quick tier: two kinds per (spelling, cache mode), rotating so that every kind meets
+				// every spelling and every cache mode; thorough: all of them
+				if !thorough && (ki+sp+2*ci)%5 >= 2 {
+					continue
+				}
+				h := c6newRunAt(rep, r, false, size, sp)
+				if h == nil {
+					continue
+				}
+				owner := 0
+				if kind <= kHmac {
+					owner = 1 + r.Intn(len(c6Clients)-1)
+				}
+				s := c6slot{kind, owner}
+				rep.Count(fmt.Sprintf("store:%s cache:%d", h.name(), size))
+				rep.Count("opening:dir-spelling-family")
+				rep.Count("kind:" + c6KindCoq[kind])
+				h.doGen(s)
+				if r.Bool() {
+					h.readAllOrCur(s) // list cached while there is no rotated key yet
+				}
+				h.doGen(s)
+				h.readAllOrCur(s) // warm
+				h.doGen(s)        // rotation through the warm cache
+				h.readAllOrCur(s)
+				if r.Bool() {
+					h.doCur(s)
+				}
+				h.doListRot(s)
+				h.doGen(s) // a second rotation: the list must grow again
+				h.readAllOrCur(s)
+				i := 2 + r.Intn(len(h.spec.at(s).rot))
+				h.doDestroyRot(s, i)
+				h.readAllOrCur(s)
+				h.doListRot(s)
+				if r.Intn(3) == 0 {
+					h.doDestroyCur(s)
+					h.readAllOrCur(s)
+					h.doGen(s)
+					h.readAllOrCur(s)
+				}
+				h.doReset(r.Intn(3) == 0)
+				h.readAllOrCur(s)
+				h.doCur(s)
+				h.doListRot(s)
+				h.emit(fmt.Sprintf("ds%d %s cache=%d dir=%s %v", sc, h.name(), size, c6DirSpellings[sp].tag, s), size)
+				sc++
+			}
+		}
+	}
+}
+
 func runC06(rep *vh.Report, r *vh.Rng, n int, thorough bool) {
 	c6WarmDestroyFamily(rep, r, thorough)
+	c6DirSpellingFamily(rep, r, thorough)
 	for sc := 0; sc < n; sc++ {
 		v2 := sc%3 == 2
 		cacheSize := keystore.WithoutCache
